@@ -137,6 +137,23 @@ func c01Oracle(c *Ctx, prog *LazyProgram, log *RunLog, assign []KV, devs int, wh
 		if esc != nil || !ftb.IsFail || finv.Draws != last.Draws {
 			viol("fail-file-through-fuzz-differs prog="+prog.Name, fmt.Sprintf("the fail file words through MakeFuzz: failed=%v escaped=%v draws %s; presented case draws %s", ftb.IsFail, esc, finv.Draws, last.Draws))
 		}
+		// the next Check of the same test finds the failure through that file: what it reports is held to
+		// the same standard - a real failure of the presented case, never "flaky"
+		env2 := NewEnv(full, prog.Base)
+		cfg2 := cfg
+		cfg2.Seed ^= 0x77
+		log2 := RunCheck(prog, env2, cfg2)
+		c.R.Evals++
+		if v2 := log2.Verdict(); v2.Class == "flaky" {
+			viol("flaky-reported-on-fail-file-replay prog="+prog.Name, fmt.Sprintf("the rerun that replays the saved fail file calls the property flaky: %q", trunc(v2.ErrText, 300)))
+		} else if (v2.Class == "failed" || v2.Class == "panic") && v2.After == 0 && len(env2.Invs) > 0 {
+			last2 := env2.Invs[len(env2.Invs)-1]
+			if sig2, ok := firstSignal(last2); !ok {
+				viol("presented-case-does-not-falsify-on-fail-file-replay prog="+prog.Name, fmt.Sprintf("final replay of the rerun (draws %s) did not signal any failure", last2.Draws))
+			} else if exp2 := ExpectedText(sig2.Beh, drawsOfKey(sig2.Key)); exp2 != "" && sig2.Ctx != "library" && !strings.Contains(v2.ErrText, exp2) {
+				viol("message-names-another-failure-on-fail-file-replay prog="+prog.Name, fmt.Sprintf("%q expected in %q", exp2, trunc(v2.ErrText, 300)))
+			}
+		}
 	} else if len(log.Files) != 0 {
 		viol("fail-file-written-despite-nofailfile", fmt.Sprintf("files: %v", sortedKeys(log.Files)))
 	}
